@@ -211,7 +211,7 @@ def consumers(rel, ref, res, tier):
     elif name == 'isbn':
         from stdnum import isbn, ean
         for prefix, parents, (ranges, props, children) in _walk(ref):
-            if children or len(parents) != 2:
+            if children or len(parents) < 2:
                 continue
             for lo, hi in ranges:
                 for w in dict.fromkeys((lo, hi)):
@@ -224,7 +224,7 @@ def consumers(rel, ref, res, tier):
                     r = call(isbn.split, num)
                     gp = parents[1][0][0][0]
                     if r[0] != 'ok' or len(r[1]) != 5 or ''.join(r[1]) != num or r[1][0] != parents[0][0][0][0] \
-                            or r[1][2] != w or not all(r[1]):
+                            or r[1][2] != (w if len(parents) == 2 else parents[2][0][0][0]) or not all(r[1]) or len(parents) != 2:
                         fail('consumer-isbn', prefix + '/' + (lo if lo == hi else lo + '-' + hi), num,
                              'split(%r) = %r is not the five-part hyphenation %s-%s-%s-...' % (num, r[1], parents[0][0][0][0], gp, w))
     else:
